@@ -51,6 +51,15 @@ def check(pid, tier, regen=False):
     from . import eng_solver as ES
     hj = ES.jobs_generic(ES.PLAIN + ES.COMPOSITE + [["SolverHybrid", {}]], "c26h", 30, 300, n=8, branchy=True)(tier, seed) + \
         ES.jobs_generic(ES.PLAIN + ES.COMPOSITE, "c26w1", 25, 250, n=4, W=1, alpha="xyz", multi=True)(tier, seed)   # 1-bit values
+    # single-constraint solvers (the trivially-satisfiable shortcuts seed the model cache themselves): every constraint of
+    # the alphabets alone, at widths 1, 2, 3, on every exact class, asked satisfiable() first
+    from .w_solver import alphabet3
+    for W in (1, 2, 3):
+        A3 = alphabet3(W)
+        hs = [[["new", cls, kw], ["add", 0, [c]], ["satisfiable", 0, []]] + [["eval", 0, e, (1 << W) + 1, []] for e in A3["exprs"][:3]]
+              for cls, kw in ES.PLAIN + ES.COMPOSITE + [["SolverHybrid", {}], ["SolverReplacement", {}]] for c in A3["cons"]]
+        hj.append({"mode": "list", "W": W, "alpha": "xyz", "histories": hs, "probe": True, "tag": f"c26one{W}",
+                   "env": {"REUSE_Z3_SOLVER": "0"}})
     hbad, hstats = C.pipeline("w_solver", hj, "TraceSolver.tla")
     hst = C.merge_stats(hstats)
     hfind = C.load_findings(pid) + C.load_findings("C12")
